@@ -45,7 +45,7 @@ def child(payload, hashseed):
     return 'NO-OUTPUT'
 
 
-def own_class_prior(cls, mod):
+def own_class_prior(cls, mod, shape=None):
     """Earlier tasks of the SAME optimizer class, built with other hyperparameters (both ends of the working range), on other sizes
     (an odd number of agents x iterations x one variable: odd counts of scalar draws).  State shared between instances of one class
     (a defaults table updated in place, a spare deviate kept by a helper) shows up only after such a workload."""
@@ -56,6 +56,10 @@ def own_class_prior(cls, mod):
     for mode, nv, ni in (('hi', 1, 3), ('lo', 2, 1)):
         hp = M.hyperparams(cls, mode, r, na)
         out.append({'cls': cls, 'mod': mod, 'hp': hp or None, 'n_agents': na, 'n_vars': nv, 'n_iter': ni, 'seed': 1234})
+    if shape is not None and cls != 'GP':
+        # ... and a task of the SAME class and the SAME shape (agents x variables) in ANOTHER box, followed by one of another shape: a
+        # buffer or scratch population kept per shape would carry the first task's bounds into the observed one
+        out.append({'cls': cls, 'mod': mod, 'n_agents': shape[0], 'n_vars': shape[1], 'n_iter': 2, 'seed': 4321, 'box': [0.0, 1.0]})
     return ('same-class-other-hyperparams', '3', out)
 
 
@@ -74,7 +78,7 @@ def main():
             seed = rng.randrange(1 << 30)
             # the very same task (same seed, same sizes: bit-identical positions) run before with ANOTHER objective
             twin = ('same-task-other-objective', '9', [{'cls': cls, 'mod': mod, 'n_agents': na, 'n_vars': nv, 'n_iter': ni, 'seed': seed, 'objective': 'const'}])
-            for name, hs, prior in PRIORS + [own_class_prior(cls, mod), twin]:
+            for name, hs, prior in PRIORS + [own_class_prior(cls, mod, (na, nv)), twin]:
                 jobs.append((cls, (na, nv, ni), seed, name, hs, {'cls': cls, 'mod': mod, 'n_agents': na, 'n_vars': nv, 'n_iter': ni, 'seed': seed, 'prior': prior}))
             jobs.append((cls, (na, nv, ni), seed, 'other-seed', '0', {'cls': cls, 'mod': mod, 'n_agents': na, 'n_vars': nv, 'n_iter': ni, 'seed': seed + 1, 'prior': []}))
         # the same task in a hypercomplex space (agents rely on the untouched default unit bounds), and -- for two optimizers -- on an
